@@ -3,13 +3,28 @@ import json, os, sys
 sys.path.insert(0, os.path.dirname(os.path.dirname(os.path.abspath(__file__))))
 from harness import registry
 
+D = "Dialect of the X/Y/Z theorems: G92 without valued X/Y/Z and no M206 (K-D15), arcs in absolute positioning and I/J form (K-D5, K-D10), no G28 inside an open episode (K-D18). "
 TEXT = {
- "C09": ("Refinement theorem handleGcode_ok / C09_total: on every well-formed (homed) state and for every event sequence the exception-aware model returns .ok of the total model, stays well-formed and returns None / ignore / a non-empty list; model tied to the code by the filter, arc and stream correspondence suites.",
-         "Structured layer proved in full; text entry point proved under the hypothesis that the command parses (regex completeness is checked by the parser suite only). Float-only failures (inf/nan, rounding making a sqrt argument negative) are outside the field model and are covered only by the arc/filter correspondence suites."),
+ "C01": ("no_motion_into_region / episode_no_motion_linear over the joint invariant InvXYZ (step_inv): for every program of the dialect, any regions and region additions, a forwarded command that moves X/Y ends outside every enabled region and nothing forwarded while an episode stays open moves X/Y/Z.",
+         D + "Arcs enter through the sampling argument of C16 (planArc_covers). K-D5 and K-D18 are known findings with replays."),
+ "C02": ("C02_identity: if no step hits a region (no regions, or exclusion disabled) every command is forwarded unchanged and the state stays quiet, for every program.", D),
+ "C03": ("good_run / C03_resync: for every dialect program (absolute or relative, mm or inch), whenever no episode is open the printer's X/Y/Z position, offsets, modes and units equal the unfiltered file's; exit_zorder: the XY travel of the exit sequence happens at max(previous Z, target Z), raise before, lowering after.", D),
+ "C04": ("C04_coordinate (no episode open => printer's E axis equals the file's), C04_amount / C04_amount_arc (an extruding command handled outside regions is reached at the file's E coordinate, retraction depth and firmware flag, so it pushes the file's amount), C04_suppressed / _arc (a command that is not forwarded pushes no filament), over the invariant EInv (sys_step_einv) for every program of the protocol.",
+         "Protocol (EStep.EDialect): absolute extrusion, moves never retract, E-only retract/recover cycles of one length A or G10/G11, not mixed, E-only extrusions allowed while not retracted, G92 E anywhere; plus the X/Y/Z dialect. " + D),
+ "C05": ("C05_depth (virt.depth <= phys.depth, phys.depth in {0, A} resp. 0 with firmware parity), C05_never_deeper (phys.depth <= max of the file's depth so far), C05_recovered_first (an extruding command is reached at the file's depth: the owed recovery is issued exactly once before it), C05_firmware_params; admissibility lemmas show the protocol is inhabited.",
+         "Same protocol as C04. " + D),
+ "C09": ("handleGcode_ok / C09_total: on every well-formed (homed) state and for every event sequence the exception-aware model returns .ok of the total model, stays well-formed and returns None / ignore / a non-empty list; C18.parse_total closes the text entry point (the line regex matches at every offset).",
+         "Float-only failures (inf/nan, rounding making a sqrt argument negative) are outside the field model and are covered only by the arc/filter correspondence suites."),
+ "C16": ("Over the reals: samples on the circle at equal angular steps, consecutive samples <= 1 apart, last sample = commanded end point, travel_range (direction and size of the sweep), end_at_travel, planArc_covers (every point of the commanded arc is within one unit of a tested point); centre_partial + centre_counterexample for the radius form.",
+         "K-D10 (radius-form centre wrong unless the chord is axis-aligned) is a known finding."),
  "C17": ("All four clauses are theorems over any linearly ordered field with a lawful hypot (instance: the reals): closed-rectangle and closed-disc characterisation, corner-order invariance, soundness of containsRegion for the four type pairs; region suite compares the Float instance with the implementation on boundary-biased inputs.",
          "Exact arithmetic; one-ulp effects of float hypot at a circle border are not covered by the theorem (the suite compares them bit for bit with the model, whose hypot is the correctly rounded one)."),
+ "C18": ("gcodeLine_spans / gcodeLine_progress / gcodeLine_total about the regex regenerated from the source, parse_lossless, parse_total, parseLines_lossless: parsing never fails, yields non-empty lines whose full texts concatenate to the input byte for byte.",
+         "PARTIAL: idempotence of normalisation and self-validation of rendered checksums are not theorems (they need first-match reasoning about the whole line regex); they are decided by the parser/text correspondence suites plus the oracle (idempotent, idempotent_seq, checksum)."),
+ "C19": ("scan_eq: REGEX_PARAMETER_OR_STR.match is a maximal-munch scanner for every text and offset; parameterItems_eq_spec: the letter items equal the reference reading Spec/Reader.specRead for every text; lastValue_spec, g0_acts_on_last_values, track_gcode: handlers act on the last value.",
+         "The Lean reference reader is tied to the independent Python reader (refprinter.read_words) by the text suite; they differ only in consuming a trailing decimal point."),
 }
-DEFAULT_NOTE = "see DESIGN.md section 7 for this property"
+DEFAULT_NOTE = "see DESIGN.md section 0.3 (row of this property) for what is proved and what is decided by correspondence and oracle only"
 
 def main():
     checks = []
@@ -25,7 +40,7 @@ def main():
                 "evidence_file": "/verif/evidence/%s.json" % pid,
                 "replay_cmd_template": "./check %s --replay {path}" % pid,
                 "engine": "lean4-model+correspondence",
-                "level_claimed": {"category": "proof", "text": text, "design_ref": "DESIGN.md section 7 (%s)" % pid},
+                "level_claimed": {"category": "proof", "text": text, "design_ref": "DESIGN.md section 0.3, row %s (as built); section 7 (%s) is the original plan" % (pid, pid)},
                 "level_note": note + " Trusted base: Lean kernel + propext/Classical.choice/Quot.sound; translator; correspondence harness; exact-arithmetic idealisation; OctoPrint, logging, time, uuid4 not modelled.",
                 "technique": "Lean 4 theorems about a hand-written model; model tied to the source by a translator (regexes, constants, tables) and a bit-exact differential correspondence check",
             })
